@@ -33,88 +33,7 @@ func checkC15(c *Ctx) {
 		}
 	}
 	// ---- R1 package variables written only in init
-	nvars, nbad := 0, 0
-	for _, pk := range rtcmPkgs {
-		sp := P.Pkg(pk)
-		if sp == nil {
-			c.Unresolved("C15-R1", "package "+pk)
-			continue
-		}
-		for _, m := range sp.Members {
-			if _, ok := m.(*ssa.Global); ok {
-				nvars++
-			}
-		}
-	}
-	for _, fn := range P.ModFuncs() {
-		if isInitFn(fn) || (fn.Synthetic != "" && fn.Name() == "init") {
-			continue
-		}
-		eachInstr(fn, func(ins ssa.Instruction) {
-			var g *ssa.Global
-			what := ""
-			switch x := ins.(type) {
-			case *ssa.Store:
-				if gg, ok := x.Addr.(*ssa.Global); ok {
-					g, what = gg, "assigned"
-				} else if ia, ok := x.Addr.(*ssa.IndexAddr); ok {
-					if gg := loadOfGlobal(ia.X); gg != nil {
-						g, what = gg, "element stored"
-					}
-					if gg, ok := ia.X.(*ssa.Global); ok {
-						g, what = gg, "element stored"
-					}
-				} else if fa, ok := x.Addr.(*ssa.FieldAddr); ok {
-					if gg, ok := fa.X.(*ssa.Global); ok {
-						g, what = gg, "field stored"
-					}
-				}
-			case *ssa.MapUpdate:
-				if gg := loadOfGlobal(x.Map); gg != nil {
-					g, what = gg, "map updated"
-				}
-			case *ssa.Call:
-				if b, ok := x.Call.Value.(*ssa.Builtin); ok && (b.Name() == "delete" || b.Name() == "clear") && len(x.Call.Args) > 0 {
-					if gg := loadOfGlobal(x.Call.Args[0]); gg != nil {
-						g, what = gg, b.Name()
-					}
-				}
-			}
-			if g == nil {
-				// the address of a package-level variable handed to a call (method call on a
-				// global such as sync.Map.Store, or &global passed on): hidden shared state
-				if ci, ok := ins.(ssa.CallInstruction); ok {
-					args := append([]ssa.Value{}, ci.Common().Args...)
-					if ci.Common().IsInvoke() {
-						args = append(args, ci.Common().Value)
-					}
-					for _, a := range args {
-						if gg, ok := a.(*ssa.Global); ok {
-							g, what = gg, "passed by address to "+ci.Common().String()
-						}
-					}
-				}
-			}
-			if g == nil || g.Pkg == nil {
-				return
-			}
-			in := false
-			for _, pk := range rtcmPkgs {
-				if rel(g.Pkg.Pkg.Path()) == pk {
-					in = true
-				}
-			}
-			if !in {
-				return
-			}
-			nbad++
-			c.Fail("C15-R1", fmt.Sprintf("global-write(%s.%s in %s)", rel(g.Pkg.Pkg.Path()), g.Name(), P.FnKey(fn)), ins.Pos(), "refuted",
-				"package-level variable "+g.Name()+" is "+what+" outside init: decoding/display depends on (and races over) hidden shared state")
-		})
-	}
-	if nbad == 0 {
-		c.OK("C15-R1", "globals-init-only", token.NoPos, fmt.Sprintf("%d package-level variables of the rtcm packages are written only by initialisers", nvars))
-	}
+	ruleGlobalsInitOnly(c, "C15-R1", rtcmPkgs)
 	// positive control for the zero-expected rule: the init function itself must be seen writing the tables
 	seenInit := 0
 	for _, fn := range P.FuncsIn("rtcm/utils") {
@@ -351,4 +270,93 @@ func dependsOnLoadOfField(v ssa.Value, fv *types.Var) bool {
 		return false
 	}
 	return walk(v, 0)
+}
+
+// ruleGlobalsInitOnly: package-level variables of pkgs are written (assigned,
+// element/field stored, map-updated, deleted from, or handed out by address)
+// only by initialisers.
+func ruleGlobalsInitOnly(c *Ctx, rule string, pkgs []string) {
+	P := c.P
+	nvars, nbad := 0, 0
+	for _, pk := range pkgs {
+		sp := P.Pkg(pk)
+		if sp == nil {
+			c.Unresolved(rule, "package "+pk)
+			continue
+		}
+		for _, m := range sp.Members {
+			if _, ok := m.(*ssa.Global); ok {
+				nvars++
+			}
+		}
+	}
+	for _, fn := range P.ModFuncs() {
+		if isInitFn(fn) || (fn.Synthetic != "" && fn.Name() == "init") {
+			continue
+		}
+		eachInstr(fn, func(ins ssa.Instruction) {
+			var g *ssa.Global
+			what := ""
+			switch x := ins.(type) {
+			case *ssa.Store:
+				if gg, ok := x.Addr.(*ssa.Global); ok {
+					g, what = gg, "assigned"
+				} else if ia, ok := x.Addr.(*ssa.IndexAddr); ok {
+					if gg := loadOfGlobal(ia.X); gg != nil {
+						g, what = gg, "element stored"
+					}
+					if gg, ok := ia.X.(*ssa.Global); ok {
+						g, what = gg, "element stored"
+					}
+				} else if fa, ok := x.Addr.(*ssa.FieldAddr); ok {
+					if gg, ok := fa.X.(*ssa.Global); ok {
+						g, what = gg, "field stored"
+					}
+				}
+			case *ssa.MapUpdate:
+				if gg := loadOfGlobal(x.Map); gg != nil {
+					g, what = gg, "map updated"
+				}
+			case *ssa.Call:
+				if b, ok := x.Call.Value.(*ssa.Builtin); ok && (b.Name() == "delete" || b.Name() == "clear") && len(x.Call.Args) > 0 {
+					if gg := loadOfGlobal(x.Call.Args[0]); gg != nil {
+						g, what = gg, b.Name()
+					}
+				}
+			}
+			if g == nil {
+				// the address of a package-level variable handed to a call (method call on a
+				// global such as sync.Map.Store, or &global passed on): hidden shared state
+				if ci, ok := ins.(ssa.CallInstruction); ok {
+					args := append([]ssa.Value{}, ci.Common().Args...)
+					if ci.Common().IsInvoke() {
+						args = append(args, ci.Common().Value)
+					}
+					for _, a := range args {
+						if gg, ok := a.(*ssa.Global); ok {
+							g, what = gg, "passed by address to "+ci.Common().String()
+						}
+					}
+				}
+			}
+			if g == nil || g.Pkg == nil {
+				return
+			}
+			in := false
+			for _, pk := range pkgs {
+				if rel(g.Pkg.Pkg.Path()) == pk {
+					in = true
+				}
+			}
+			if !in {
+				return
+			}
+			nbad++
+			c.Fail(rule, fmt.Sprintf("global-write(%s.%s in %s)", rel(g.Pkg.Pkg.Path()), g.Name(), P.FnKey(fn)), ins.Pos(), "refuted",
+				"package-level variable "+g.Name()+" is "+what+" outside init: decoding/display depends on (and races over) hidden shared state")
+		})
+	}
+	if nbad == 0 {
+		c.OK(rule, "globals-init-only", token.NoPos, fmt.Sprintf("%d package-level variables of the rtcm packages are written only by initialisers", nvars))
+	}
 }
